@@ -49,7 +49,8 @@ THRESHOLDS = {
     (HCORE, "overlap_between_geometries", "overlap_cutoff"): "overlap truncation (R2)",
     ("seqm/dynamics/tdc_hamiltonian_fd.py", "*", "overlap_cutoff"): "overlap truncation for the finite-difference TDC Hamiltonian (R2)",
     ("seqm/seqm_functions/diat_overlap_full.py", "*", "overlap_cutoff"): "overlap truncation (R2)",
-    ("seqm/seqm_functions/anal_grad.py", "*", "overlap_cutoff"): "overlap truncation in the analytical gradient (R2)",
+    ("seqm/seqm_functions/anal_grad.py", "overlap_der_finiteDiff", "overlap_cutoff"): "overlap truncation of the overlap derivative in the analytical gradient (R2); the electron-core "
+                                                                                   "and two-electron derivative terms have no cutoff",
     ("seqm/seqm_functions/tools.py", "*", "overlap_cutoff"): "overlap truncation in the legacy helper (R2)",
     ("seqm/seqm_functions/spherical_pot_force.py", "Spherical_Pot_Force", "radius"): "user-enabled external confinement potential (distance from a centre, not an interatomic interaction)",
     ("seqm/seqm_functions/data_loader.py", "*", "self.innercutoff"): "legacy data loader (not used by Parser)",
@@ -647,6 +648,10 @@ def run(ctx):
                 texts = [norm(x).replace(" ", "") for x in conj]
                 cutoff_guard = any("outercutoff" in t or "pair_outer_cutoff" in t for t in texts)
                 no_kwargs = "notkwargs" in texts
+                if not no_kwargs:
+                    # the condition implies `not kwargs` iff it is false whenever kwargs is non-empty (three-valued evaluation, whatever the spelling)
+                    from .c18 import three_val as _tv
+                    no_kwargs = any(_tv(x_, {"kwargs": True}, None, cdefs) is False for x_ in conj)
                 # with `not kwargs` the path is dead iff every public caller hands a keyword down that no signature on the way absorbs
                 dead = False
                 why = ""
